@@ -7,13 +7,16 @@ import CryoCat.Lemmas.C10_Asis
 import CryoCat.Lemmas.C10_Polar
 import CryoCat.Lemmas.C10_PolarReal
 /-! C10 — cyclic symmetry expansion places subunits on the symmetry orbit.
-Property theorems about `CryoCat.C10.expand` (the definition the driver executes), for every `n`, every
+Property theorems about `CryoCat.C10.expand` (the Cartesian form of the statement; the driver executes `expandSymP` /
+`expandP`, the code's polar arithmetic, tied to `expand` by `expandP_eq` — see the end of this comment), for every `n`, every
 particle list (parent ids may repeat), every offset `s`, over any field (orbit algebra, bookkeeping), any ordered
 field with a rounding service (integrality, |shift| ≤ 1/2) and over ℝ with the true cosine/sine (the step angle is
 360/n degrees); the symmetry argument as a string (`'C7'`, `'c7'`, `'C 7'`, `'C07'`) or a number (`int()` = truncation
 toward zero of its exact value). The theorems are stated with the Cartesian rotation `Rz(k·a)·s` of the statement; the
 code's own arithmetic (polar form of the offset, `trig(k·360/n)`; `expandP`, what the driver executes) is proved equal to
-it under exact services (`expandP_eq`) and, over ℝ with `arctan2 = Complex.arg`, without hypotheses (`real_expandP_eq`). -/
+it UNDER the identities `PolarExact` (polar coordinates of `(x, y)`, angle addition — identities that hold for the real
+`sqrt` / `arg` / `cos` / `sin`: `realPolar_exact`), so the abstract `expandP_eq` only factors the algebra; its substance is
+the hypothesis-free statement over ℝ with `arctan2 = Complex.arg` (`real_expandP_eq`, `real_expandP_spec`). -/
 namespace CryoCat.C10
 
 /-! ### ANCHORS — translator obligations: what the source says today is the documented convention.
@@ -689,8 +692,10 @@ end symmetry
 section polar
 
 /-- **The property for the definition the driver executes** (`expandP`: `rho = sqrt(s0²+s1²)`, `the = arctan2(s1, s0)`,
-`center_shift = (rho cos(the + deg2rad phi_k), rho sin(…), s2)`, `phi_k = k·(360/n)`): with exact services every
-output of `expandP` satisfies everything `expand_spec` says — because `expandP = expand` (`expandP_eq`) -/
+`center_shift = (rho cos(the + deg2rad phi_k), rho sin(…), s2)`, `phi_k = k·(360/n)`): under `sv.Exact` and the
+identities `PolarExact` (which hold for the real functions, `realPolar_exact`) every output of `expandP` satisfies
+EVERY conjunct of `expand_spec` (the conclusion below is that of `expand_spec`, word for word) — because
+`expandP = expand` (`expandP_eq`) -/
 theorem expandP_spec {α : Type} [_root_.Field α] [LinearOrder α] [IsStrictOrderedRing α]
     (sv : Svc α) (pv : PolarSvc α) (hE : sv.Exact) (hP : PolarExact sv pv) (n : Nat) (s : V3 α)
     (l : List (Particle α)) (u : SubU α) (hu : u ∈ expandP sv pv n s l) :
@@ -699,12 +704,14 @@ theorem expandP_spec {α : Type} [_root_.Field α] [LinearOrder α] [IsStrictOrd
       pos u.p = pos P + u.orient.apply s ∧
       pos u.p - u.orient.apply s = pos P ∧
       u.orient = ownAxisRot sv n P k * orientOf sv P ∧
+      pos u.p - pos P = (ownAxisRot sv n P k).apply ((orientOf sv P).apply s) ∧
       u.p.geom5 = P.subtomo_id ∧ u.p.geom2 = (((k + 1 : Nat)) : α) ∧
+      (∃ j, j < n * l.length ∧ u.p.subtomo_id = (((j + 1 : Nat)) : α)) ∧
+      (∀ f ∈ [Field.score, .geom1, .tomo_id, .object_id, .subtomo_mean, .geom3, .geom4, .cls], u.p.get f = P.get f) ∧
       IsInt u.p.x ∧ IsInt u.p.y ∧ IsInt u.p.z ∧
       |u.p.shift_x| ≤ 1 / 2 ∧ |u.p.shift_y| ≤ 1 / 2 ∧ |u.p.shift_z| ≤ 1 / 2 := by
   rw [expandP_eq hP] at hu
-  obtain ⟨P, hPl, k, hk, h1, h2, h3, h4, _, h6, h7, _, _, h10, h11, h12, h13, h14, h15⟩ := expand_spec sv hE n s l u hu
-  exact ⟨P, hPl, k, hk, h1, h2, h3, h4, h6, h7, h10, h11, h12, h13, h14, h15⟩
+  exact expand_spec sv hE n s l u hu
 
 /-- over ℝ, with numpy's functions taken as the true ones (`Real.sqrt`, `arctan2 = Complex.arg`, `Real.cos/sin`), the
 code's polar arithmetic IS the Cartesian model, for every `n`, offset (on the axis too) and list — no hypothesis left -/
@@ -719,18 +726,25 @@ theorem real_centerShift (n k : Nat) (s : V3 ℝ) :
 
 /-- **hypothesis-free over ℝ**: every output of the code's arithmetic (`expandP` with the true `sqrt`, `arctan2`, `cos`,
 `sin`, rounding half away from zero) is the `k`-th subunit (`k < n`) of an input particle `P` with orientation
-`R·Rz(k·360/n°)`, complete position `centre + orientation·s`, parent in geom5, index `k+1` in geom2, integer `x,y,z`,
-`|shift| ≤ 1/2` — for every `n`, every list, every offset -/
+`R·Rz(k·360/n°)`, complete position `centre + orientation·s`, offset from the centre obtained by the rotation about the
+parent's own z axis, parent in geom5, index `k+1` in geom2, a subtomogram number in `1..n·N`, the parent's other fields,
+integer `x,y,z`, `|shift| ≤ 1/2` — for every `n`, every list, every offset (all conjuncts of `expand_spec`, the
+orientation spelled out in degrees) -/
 theorem real_expandP_spec (n : Nat) (s : V3 ℝ) (l : List (Particle ℝ)) (u : SubU ℝ) (hu : u ∈ expandP realSvc realPolar n s l) :
     ∃ P ∈ l, ∃ k, k < n ∧
       u.orient = orientOf realSvc P * rz (Real.cos ((k : ℝ) * (360 / (n : ℝ)) * (Real.pi / 180))) (Real.sin ((k : ℝ) * (360 / (n : ℝ)) * (Real.pi / 180))) ∧
       pos u.p = pos P + u.orient.apply s ∧
+      pos u.p - u.orient.apply s = pos P ∧
+      u.orient = ownAxisRot realSvc n P k * orientOf realSvc P ∧
+      pos u.p - pos P = (ownAxisRot realSvc n P k).apply ((orientOf realSvc P).apply s) ∧
       u.p.geom5 = P.subtomo_id ∧ u.p.geom2 = (((k + 1 : Nat)) : ℝ) ∧
+      (∃ j, j < n * l.length ∧ u.p.subtomo_id = (((j + 1 : Nat)) : ℝ)) ∧
+      (∀ f ∈ [Field.score, .geom1, .tomo_id, .object_id, .subtomo_mean, .geom3, .geom4, .cls], u.p.get f = P.get f) ∧
       IsInt u.p.x ∧ IsInt u.p.y ∧ IsInt u.p.z ∧
       |u.p.shift_x| ≤ 1 / 2 ∧ |u.p.shift_y| ≤ 1 / 2 ∧ |u.p.shift_z| ≤ 1 / 2 := by
-  obtain ⟨P, hPl, k, hk, h1, h2, _, _, h6, h7, h10, h11, h12, h13, h14, h15⟩ :=
+  obtain ⟨P, hPl, k, hk, h1, h2, h3, h4, h5, h6, h7, h8, h9, h10, h11, h12, h13, h14, h15⟩ :=
     expandP_spec realSvc realPolar realSvc_exact realPolar_exact n s l u hu
-  refine ⟨P, hPl, k, hk, ?_, h2, h6, h7, h10, h11, h12, h13, h14, h15⟩
+  refine ⟨P, hPl, k, hk, ?_, h2, h3, h4, h5, h6, h7, h8, h9, h10, h11, h12, h13, h14, h15⟩
   rw [h1, ← Ang.rz_nsmul, nsmul_stepAng_real]; rfl
 
 /-- the whole call with the symmetry argument as given -/
